@@ -36,6 +36,11 @@ def batch(lo, hi, ver, origin, index_kind):
     return series([[t, ver] for t in range(lo, hi + 1)], origin, index_kind)
 
 
+def xframe(y):
+    """Exogenous data travelling with a batch: a function of the same (time, version) tokens."""
+    return pd.DataFrame({"x1": 0.5 * y.values + 3.0, "x2": np.cos(y.values / 7.0)}, index=y.index)
+
+
 def fh_arg(fh, origin, variant=0):
     from sktime.forecasting.base import ForecastingHorizon
     if not fh["steps"]:
@@ -89,7 +94,7 @@ def norm_update_predict(res, fhsteps, origin):
     return cells
 
 
-def run_history(factory, hist, origin=0, index_kind="range", want_ref=False, fhvariant=0):
+def run_history(factory, hist, origin=0, index_kind="range", want_ref=False, fhvariant=0, exog=False):
     """Execute hist on factory(); returns list of observations (one per call).
     If want_ref, update_predict steps also carry 'ref': the cells obtained from the
     corresponding sequence of update / predict calls on a deep copy."""
@@ -103,11 +108,12 @@ def run_history(factory, hist, origin=0, index_kind="range", want_ref=False, fhv
             if op == "fit":
                 y = batch(step["lo"], step["hi"], step["ver"], origin, index_kind)
                 fh = fh_arg(step["fh"], origin, fhvariant)
-                r = f.fit(y, fh=fh) if fh is not None else f.fit(y)
+                kwx = {"X": xframe(y)} if exog else {}
+                r = f.fit(y, fh=fh, **kwx) if fh is not None else f.fit(y, **kwx)
                 o["self"] = r is f
             elif op == "update":
                 y = batch(step["lo"], step["hi"], step["ver"], origin, index_kind)
-                r = f.update(y, update_params=bool(step["upd"]))
+                r = f.update(y, X=xframe(y) if exog else None, update_params=bool(step["upd"]))
                 o["self"] = r is f
             elif op == "predict":
                 fh = fh_arg(step["fh"], origin, fhvariant)
@@ -117,7 +123,11 @@ def run_history(factory, hist, origin=0, index_kind="range", want_ref=False, fhv
             elif op == "ups":
                 y = batch(step["lo"], step["hi"], step["ver"], origin, index_kind)
                 fh = fh_arg(step["fh"], origin, fhvariant)
-                p = f.update_predict_single(y, fh=fh, update_params=bool(step["upd"]))
+                if exog:       # update_predict_single does not accept exogenous data for window forecasters
+                    f.update(y, X=xframe(y), update_params=bool(step["upd"]))
+                    p = f.predict(fh) if fh is not None else f.predict()
+                else:
+                    p = f.update_predict_single(y, fh=fh, update_params=bool(step["upd"]))
                 o["times"] = [int(i) - origin for i in p.index]
                 o["vals"] = _vals(p.values)
             elif op == "upd_predict":
@@ -159,7 +169,7 @@ def close(a, b):
                for x, y in zip(a, b))
 
 
-def twin_predict(factory, step, fit_fh, eff_fh, origin, index_kind):
+def twin_predict(factory, step, fit_fh, eff_fh, origin, index_kind, exog=False):
     """Forecast of a fresh forecaster brought to the same abstract state by the
     canonical history fit(epoch) [; update(rest, update_params=False)]."""
     exp = step["exp"]
@@ -168,11 +178,13 @@ def twin_predict(factory, step, fit_fh, eff_fh, origin, index_kind):
     ob = exp["obs"]
     y0 = series(ep, origin, index_kind)
     fh0 = fh_arg(fit_fh, origin)
-    g.fit(y0, fh=fh0) if fh0 is not None else g.fit(y0)
+    kwx = {"X": xframe(y0)} if exog else {}
+    g.fit(y0, fh=fh0, **kwx) if fh0 is not None else g.fit(y0, **kwx)
     epd = {p[0]: p[1] for p in ep}
     diff = [p for p in ob if epd.get(p[0]) != p[1]]
     if diff:
-        g.update(series(diff, origin, index_kind), update_params=False)
+        yd = series(diff, origin, index_kind)
+        g.update(yd, X=xframe(yd) if exog else None, update_params=False)
     fh = fh_arg(eff_fh, origin)
     p = g.predict(fh) if fh is not None else g.predict()
     return [int(i) - origin for i in p.index], _vals(p.values)
